@@ -7,12 +7,23 @@
 (* The replay runs in lock step with the first run.  Its backing state is  *)
 (* the FINAL read set of the first run, which is only known at the end, so *)
 (* it is guessed up front (prophecy variables rp = keys of the final read  *)
-(* set, up = utxos finally consumed) and the clause is asserted in exactly *)
-(* the states in which the guess has come true (inp = rp, un = up).  Every *)
-(* prefix of a program is a program, so this covers every op sequence.     *)
-(* The write set and the utxo outputs of the replay are functions of the   *)
-(* calls and of the per-call results, so "same results" (flag same) gives  *)
-(* "same write set".                                                       *)
+(* set, up = the final recorded utxo inputs, a sequence of utxos) and the  *)
+(* clause is asserted in exactly the states in which the guess has come    *)
+(* true (inp = rp, uin = up).  Every prefix of a program is a program, so  *)
+(* this covers every op sequence.  The write set of the replay is a        *)
+(* function of the calls and of the per-call results; the utxo outputs     *)
+(* (payment, change) are a function of the calls and of the inputs each    *)
+(* transfer took; so "same results and same inputs taken by every          *)
+(* transfer" (flag same) gives "same write set" (the utxo sets are written *)
+(* into the transient bucket by Flush).                                    *)
+(*                                                                         *)
+(* Transfers: every sender (two that hold utxos of different amounts, one  *)
+(* that holds nothing), every amount from zero to above what any sender    *)
+(* holds, the node's reader handing out the sender's free utxos in ANY     *)
+(* order (AnyOrderSel); failing transfers leave no trace and the execution *)
+(* goes on.  The replay reader (RsSel over the prophesied final input list *)
+(* up at cursor Len(uin)) must fail where the first run failed and take    *)
+(* exactly the first run's inputs where it succeeded.                      *)
 (*                                                                         *)
 (* The scan's look-ahead (peekIterator: up to two backing keys beyond the  *)
 (* consumed ones are read) is covered by letting every scan read an        *)
@@ -34,11 +45,14 @@ OverReads(b, lo, hi, need) ==
   IN IF LookAhead = 99 THEN SUBSET rest
      ELSE {{rs[j] : j \in 1..m} : m \in 0..Min2(LookAhead, Len(rs))}
 
-MCInit == Init /\ rp \in SUBSET Keys /\ up \in 0..NU /\ same = TRUE
+(* every sequence of distinct utxos of a pool *)
+InjSeqs(S) == {s \in UNION {[1..n -> S] : n \in 0..Cardinality(S)} : Injective(s)}
+UpGuesses == UNION {InjSeqs(SeqRange(AllU(p, "a")) \cup SeqRange(AllU(p, "b"))) : p \in Pools(NU)}
+MCInit == Init /\ rp \in SUBSET Keys /\ up \in UpGuesses /\ same = TRUE
 
 Keep == UNCHANGED <<rp, up>>
 MCStep ==
-  \/ mode = "idle" /\ \E f \in XmStates : Start(f, NU) /\ Keep /\ UNCHANGED same
+  \/ mode = "idle" /\ \E f \in XmStates : \E p \in Pools(NU) : Start(f, p) /\ Keep /\ UNCHANGED same
   \/ \E k \in Keys : Get(k) /\ Keep /\ same' = (same /\ LastEv.res = SemVal(bk2, out, k))
   \/ \E k \in Keys : (Del(k) \/ \E v \in Vals : Put(k, v)) /\ Keep /\ UNCHANGED same
   \/ \E b \in {TB, 1, 2} : \E r \in Ranges(b) : \E lim \in Limits :
@@ -46,17 +60,19 @@ MCStep ==
           \* the replay's own input cache cannot matter: in "rs" mode every cached record is also in the reader
           /\ same' = (same /\ IF r[2] # 0 /\ r[1] > r[2] THEN LastEv.res = "err"
                                ELSE LastEv.res = "ok" /\ LastEv.items = Items(Take(Mech(bk2, "rs", {}, out, b, r[1], r[2]), lim)))
-  \/ NU > 0 /\ \E amt \in 0..(UAmt + 1) :
-       /\ Transfer(amt) /\ Keep
-       \* sandbox/utxo.go UTXOReader: consumes the recorded inputs front to back (un is also the replay's position
-       \* as long as the results agreed so far)
-       /\ same' = (same /\ LastEv.res = (IF amt = 0 \/ un + ((amt + UAmt - 1) \div UAmt) > up THEN "err" ELSE "ok"))
+  \/ NU > 0 /\ \E f \in Froms : \E to \in Tos : \E amt \in 0..MaxAmt(NU) :
+       /\ Transfer(f, to, amt, AnyOrderSel, FALSE) /\ Keep
+       \* sandbox/utxo.go UTXOReader over the final input list: as long as the results agreed so far its cursor is
+       \* Len(uin).  Same result, and the same inputs taken (hence the same payment and change outputs).
+       /\ same' = (same /\ LET rsel == IF amt = 0 THEN <<>> ELSE RsSel(up, Len(uin), f, amt)
+                             IN IF LastEv.res = "err" THEN rsel = <<>>
+                                ELSE rsel = LastEv.sel /\ Outs(f, to, amt, rsel) = LastEv.outs)
 MCSpec == MCInit /\ [][MCStep]_mcvars
 
 (* the guess can still come true *)
-Feasible == inp \subseteq rp /\ un <= up
+Feasible == inp \subseteq rp /\ Len(uin) <= Len(up) /\ uin = SubSeq(up, 1, Len(uin))
 (* C10 replay clause *)
-ReplayReproduces == (inp = rp /\ un = up) => same
+ReplayReproduces == (inp = rp /\ uin = up) => same
 
-View == <<mode, bk, inp, out, pool, un, rp, up, same>>
+View == <<mode, bk, inp, out, pool, uin, uout, rp, up, same>>
 =============================================================================
